@@ -21,7 +21,7 @@ META = {
             "functional_extensionality_dep, classic via Coquelicot) as listed by Print Assumptions; the 'same term, different "
             "NumOps instance' argument between R and binary64; the hand transcription coq/C15/PolyDefs.v, validated bit for bit "
             "against the C on the generated cases only; gcc -O2 -ffp-contract=off on x86-64 being IEEE binary64 op by op.",
-    "technique": "Rocq proof over R (field, auto_derive, list induction) + coefficient formulas regenerated from src/trajpoly*.c by a translator and re-tied by conversion on every run + bit-exact primitive-float model vs C correspondence",
+    "technique": "Rocq proof over R (field, auto_derive, list induction) + coefficient formulas regenerated from src/trajpoly*.c by a translator and re-tied by conversion on every run, the Horner evaluators and the coefficient swap unrolled for 0..6 coefficients and proved equal to the wrapper model + bit-exact primitive-float model vs C correspondence",
 }
 
 H = vlib.VERIF / "harness" / "C15"
@@ -148,6 +148,9 @@ def run(ctx):
     # second tie: generators and derivative builders are REGENERATED from the current sources and re-tied to the proved model
     ctx.translate_and_tie([("src/trajpoly%d.c" % d, ["a_trajpoly%d_gen" % d, "a_trajpoly%d_c1" % d, "a_trajpoly%d_c2" % d]
                             + (["a_trajpoly7_c3"] if d == 7 else [])) for d in (3, 5, 7)], "GenPoly", H / "TiePoly.v")
+    # third tie: the Horner evaluators and the coefficient swap, UNROLLED for 0..6 coefficients (cores of poly.c inlined into the
+    # wrappers of poly.h), proved equal to the wrapper model for all coefficients and arguments
+    ctx.translate_and_tie([("src/poly.c", (H / "tie_names.txt").read_text().split())], "GenPolyN", H / "TiePolyN.v")
     ctx.assumptions += ["floating-point rounding at the end time is measured (tolerance 1e-9 * data scale), not proved",
                         "C built with gcc -O2 -ffp-contract=off: binary64 operation by operation"]
     cbin = ctx.cc("drv", [H / "drv.c"], repo_srcs=["trajpoly3.c", "trajpoly5.c", "trajpoly7.c", "poly.c", "a.c"], mode="num")
